@@ -658,6 +658,12 @@ int main(int argc, char** argv) {
     else if (mode == "c14ts") bad = verif::run_c14<false>(T, seed, rounds);
 #else
     else if (mode == "c14soft") bad = verif::run_c14<true>(T, seed, rounds);
+    else if (mode == "c14ts") {
+      // asked for the counted-link workload in a build in which the headers did not leave ADEPT_STORAGE_THREAD_SAFE in effect
+      // (only reachable when some other configuration switch cancels it): run it all the same, the race is the finding
+      std::printf("note ADEPT_STORAGE_THREAD_SAFE is not in effect in this build\n");
+      bad = verif::run_c14<false>(T, seed, rounds);
+    }
 #endif
     else { std::printf("bad-op\n"); return 2; }
   } catch (const std::exception& e) {
